@@ -186,6 +186,19 @@ def cases(tier='quick', families=None):
             out.append(Case('S0', lab + '/[5]E', 'IMPLICIT', tagged(fn(), (2, 5, 'EXPLICIT'))))
         out.append(Case('S0', 'INT/[A31]E[5]E', 'EXPLICIT', tagged(Type('REF', ref='@a'), (1, 31, None)),
                         OrderedDict([('a', tagged(Type('INTEGER'), (2, 5, None)))])))
+        # tag numbers at the thresholds of the identifier-octet forms: BER low/high tag number (30/31), OER one-octet form (62/63),
+        # one/two continuation octets (127/128, 16383/16384); as CHOICE alternatives, SEQUENCE members and top-level tags
+        for cls, cname in ((2, 'C'), (1, 'A'), (3, 'P')):
+            for N in (30, 62, 63, 127, 16383):
+                if tier == 'quick' and cls == 3 and N not in (63,):
+                    continue
+                ch = Type('CHOICE', root=[Member('a', tagged(Type('INTEGER'), (cls, N, None))), Member('b', tagged(Type('BOOLEAN'), (cls, N + 1, None))),
+                                           Member('c', tagged(Type('NULL'), (cls, 0, None)))])
+                out.append(Case('S0', 'tagnum/CHOICE/%s%d' % (cname, N), 'IMPLICIT', ch))
+                sq = Type('SEQUENCE', root=[Member('a', tagged(Type('INTEGER'), (cls, N, None)), optional=True), Member('b', tagged(Type('BOOLEAN'), (cls, N + 1, None))),
+                                             Member('w', tagged(Type('CHOICE', root=[Member('x', tagged(Type('INTEGER'), (cls, N, None))), Member('y', tagged(Type('NULL'), (cls, N + 1, None)))]), (cls, N + 2, 'EXPLICIT')))])
+                out.append(Case('S0', 'tagnum/SEQUENCE/%s%d' % (cname, N), 'IMPLICIT', sq))
+                out.append(Case('S0', 'tagnum/top/%s%d' % (cname, N + 1), 'IMPLICIT', tagged(Type('OCTET STRING'), (cls, N + 1, 'IMPLICIT'))))
     # ---- S1: one leaf x one role x tagging mode, in a 3-member container
     if fam('S1'):
         if tier == 'quick':
@@ -273,6 +286,17 @@ def cases(tier='quick', families=None):
                         if not t.root:
                             continue
                     out.append(Case('S4', 'w%d/mask%d/ext%s' % (w, mask, extpos), 'AUTOMATIC', t))
+        # the member-lookup shortcuts of the SEQUENCE BER decoder: a run of more than 8 OPTIONAL members (linear scan limited to
+        # 8, then bsearch) and an untagged CHOICE (tag -1) among the skippable members (bsearch at once)
+        ms = [Member('o%d' % i, copy.copy(kinds[i % 4]), optional=True) for i in range(9)] + [Member('last', Type('OCTET STRING'))]
+        out.append(Case('S4', 'optrun9', 'AUTOMATIC', Type('SEQUENCE', root=ms)))
+        for td in ('EXPLICIT', 'IMPLICIT'):
+            ch = Type('CHOICE', root=[Member('a', Type('INTEGER')), Member('b', Type('BOOLEAN'))])
+            out.append(Case('S4', 'optchoice/' + td, td, Type('SEQUENCE', root=[Member('id', ch, optional=True), Member('body', Type('OCTET STRING')),
+                                                                                   Member('n', Type('INTEGER', cons=Cons(0, 7)))])))
+            ch2 = Type('CHOICE', root=[Member('a', Type('INTEGER')), Member('b', Type('BOOLEAN'))])
+            out.append(Case('S4', 'optchoice2/' + td, td, Type('SEQUENCE', root=[Member('f', Type('NULL'), optional=True), Member('id', ch2, optional=True),
+                                                                                    Member('body', Type('OCTET STRING'), optional=True), Member('n', Type('REAL'))])))
     # ---- S5: recursion knots
     if fam('S5'):
         out.append(Case('S5', 'rec_optional', 'AUTOMATIC',
